@@ -137,8 +137,10 @@ static void note_thread (int me) {
 			nsync_note kid = nsync_note_new (note[x], nsync_time_no_deadline);
 			if (kid != NULL) {
 				int parent_seen = seen_notified[x] != 0;
+				int done_before = cause_done (x);   /* every notification of x / an ancestor that was begun has completed */
 				r = nsync_note_is_notified (kid);
 				mc_assert (r || !parent_seen, "a child created under note %c after it was seen notified is not notified", letters[x]);
+				mc_assert (r || !done_before, "a child of note %c is not notified although the notification of %c (or of an ancestor) had completed before it was polled", letters[x], letters[x]);
 				mc_assert (!r || cause_begun (x), "a fresh child of note %c is notified although nothing on its path is", letters[x]);
 				nsync_note_free (kid);
 			}
